@@ -1660,7 +1660,7 @@ fn main() {
     // ---- FA: access product (sources x deny lists x allow lists) ---------------------------
     {
         let t = acl_table();
-        let end = if thorough { t.all.len() } else { t.quick_end };
+        let end = if thorough { t.fi_start } else { t.quick_end };
         let n = (end - N_BASE_ACLS) as u64;
         let reqs = [
             build_request(0x0a0a, 0x0100, &name_wire("x.z."), 16, 1, 0),
